@@ -32,6 +32,7 @@ type WaitCase struct {
 	Route   string `json:"route,omitempty"`    // func / batch kinds: "" all builder methods; "opt-wait" wait through the constructor option, budget through the builder; "opt-all" both through options
 	CtxFar  bool   `json:"ctx_far,omitempty"` // the context also carries a deadline two hours away (explicit cancellation must still interrupt the wait)
 	DeadlineMs int `json:"deadline_ms,omitempty"` // > 0 (with Cancel = 1): nobody calls cancel — the context's own deadline, this many ms away, expires while the item sits in its hour-long wait
+	ErrKind string `json:"err_kind,omitempty"` // "ctx-timeout" / "ctx-canceled": failing attempts return an error that wraps context.DeadlineExceeded / context.Canceled although the run's context is alive (a per-attempt timeout)
 	PreWaitNs int64 `json:"pre_wait_ns,omitempty"` // > 0: the node is first built with THIS wait and run once; then the wait is re-configured (builder method) to WaitNs and the measured run follows
 }
 
@@ -73,6 +74,12 @@ func (w *waitRun) exec(ctx context.Context, item int) (any, error) {
 	}
 	if a < k {
 		err = fmt.Errorf("attempt %d of item %d fails", a, item)
+		switch w.cs.ErrKind {
+		case "ctx-timeout":
+			err = fmt.Errorf("attempt %d of item %d: per-attempt timeout: %w", a, item, context.DeadlineExceeded)
+		case "ctx-canceled":
+			err = fmt.Errorf("attempt %d of item %d: sub-operation cancelled: %w", a, item, context.Canceled)
+		}
 		if w.cs.ExecUs > 0 {
 			time.Sleep(time.Duration(w.cs.ExecUs) * time.Microsecond)
 		}
@@ -358,6 +365,7 @@ func runC20(c *Cfg) {
 				cases = append(cases, &WaitCase{Family: "lower-bound-batch", Kind: "batch", WaitNs: int64(w), N: n, K: n, C: cc, Items: 5, Route: []string{"", "opt-wait", "opt-all"}[(n+cc)%3]})
 				cases = append(cases, &WaitCase{Family: "lower-bound-batch", Kind: "batch", WaitNs: int64(w), N: n, K: n + 1, C: cc, Items: 3, FB: cc == 2})
 				if w == 5*time.Millisecond {
+					cases = append(cases, &WaitCase{Family: "lower-bound-ctx-like-errors", Kind: "batch", WaitNs: int64(w), N: n, K: n + 1, C: cc, Items: 3, ErrKind: []string{"ctx-timeout", "ctx-canceled"}[(n+cc/2)%2]})
 					cases = append(cases, &WaitCase{Family: "lower-bound-slow-exec", Kind: "batch", WaitNs: int64(w), N: n, K: n + 1, C: cc, Items: 3, ExecUs: 4000})
 				}
 			}
@@ -394,6 +402,10 @@ func runC20(c *Cfg) {
 					cases = append(cases, &WaitCase{Family: "interrupt", Kind: kind, WaitNs: int64(time.Hour), N: n, K: n + 1, Cancel: 1, InCB: in, C: cc, Items: 3, FB: true, CtxFar: n%2 == 0})
 					cases = append(cases, &WaitCase{Family: "interrupt", Kind: kind, WaitNs: int64(time.Hour), N: n, K: n + 1, Cancel: 1, InCB: in, C: cc, Items: 3, CtxFar: true})
 					cases = append(cases, &WaitCase{Family: "interrupt", Kind: kind, WaitNs: int64(time.Hour), N: n, K: n + 1, Cancel: 1, InCB: in, C: cc, Items: 3, CtxCause: true})
+					if kind == "batch" {
+						cases = append(cases, &WaitCase{Family: "interrupt-stop-mode", Kind: kind, WaitNs: int64(time.Hour), N: n, K: n + 1, Cancel: 1, InCB: in, C: cc, Items: 3, Stop: true})
+						cases = append(cases, &WaitCase{Family: "interrupt-stop-mode", Kind: kind, WaitNs: int64(time.Hour), N: n, K: n + 1, Cancel: 1, DeadlineMs: 100, InCB: true, C: cc, Items: 2, Stop: true})
+					}
 				}
 			}
 		}
@@ -428,6 +440,9 @@ func runC20(c *Cfg) {
 	for _, kind := range []string{"struct", "func", "batch"} {
 		for _, j := range lateJ {
 			cases = append(cases, &WaitCase{Family: "interrupt-late", Kind: kind, WaitNs: int64(400 * time.Millisecond), N: j + 1, K: j + 2, Cancel: j, C: 2, Items: 2, FB: j%2 == 0})
+			if kind == "batch" {
+				cases = append(cases, &WaitCase{Family: "interrupt-late", Kind: kind, WaitNs: int64(400 * time.Millisecond), N: j + 1, K: j + 2, Cancel: j, C: 0, Items: 2, Stop: true})
+			}
 		}
 	}
 	parallelN(c, len(cases), 24, func(i int) {
